@@ -213,6 +213,17 @@ def names_corpus():
     out.append(({"files": {b"old.c": F(body), b"new.c": F(body)}, "dirs": [], "applied": None, "series": b"p1.patch\np2.patch\n",
                  "patches": {b"p1.patch": b"diff --git a/old.c b/moved.c\nsimilarity index 100%\nrename from old.c\nrename to moved.c\n",
                              b"p2.patch": b"--- a/old.c\n+++ b/new.c\n" + hunk}}, dict(base)))
+    # a chain of old/new name pairs over five patches: the name a patch is dispatched by and the file it ends up patching
+    # differ, and which file that is depends on what earlier patches of the same run left in memory (seeded C16-j: the
+    # distributor linked such a chain so that one name landed on another worker, which then looked at the disk)
+    c_in = b"@@ -1,3 +1,3 @@\n a\n-b\n+B\n c\n"
+    out.append(({"files": {b"conf.c.in": F(body)}, "dirs": [], "applied": None,
+                 "series": b"p0.patch\np1.patch\np2.patch\np3.patch\np4.patch\n",
+                 "patches": {b"p0.patch": b"--- a/conf.c\n+++ b/conf.c.in\n" + c_in,
+                             b"p1.patch": b"--- a/conf.c.orig\n+++ b/conf.c\n" + create,
+                             b"p2.patch": b"--- a/conf.c.old\n+++ b/conf.c\n@@ -1,3 +1,3 @@\n-a\n+A\n b\n c\n",
+                             b"p3.patch": b"--- a/conf.c.bak\n+++ b/conf.c\n@@ -1,3 +1,3 @@\n A\n b\n-c\n+C\n",
+                             b"p4.patch": b"--- a/conf.c\n+++ b/conf.c.in\n@@ -1,3 +1,3 @@\n A\n-b\n+bee\n C\n"}}, dict(base, threads=2)))
     # strip level vs depth
     for strip, pre in ((0, b""), (1, b"a/"), (2, b"a/b/"), (3, b"x/y/z/")):
         w = {"files": {b"dir/f.c": F(body)}, "dirs": [], "applied": None, "series": b"p.patch -p%d\n" % strip,
